@@ -85,8 +85,9 @@ def genRaw2name (code : Nat) : Option String :=
   | some (_, t) => (t.find? (·.2 == (code : Int))).map (·.1)
   | none => none
 
-/-- `structs.Dwarf_dw_form[form]`.  `DW_FORM_ref` (a pre-standard form the Spec table does not
-    list, so the regenerated bundle drops it) is the 4-byte reader in structs.py. -/
+/-- `structs.Dwarf_dw_form[form]`.  `DW_FORM_ref` (a pre-standard form the bundles' form list does not
+    carry) is the 4-byte reader in structs.py: `Dwarf_dw_form['DW_FORM_ref'] = the_Dwarf_uint32`, regenerated
+    by tools/gen/extra_c04.py and tied by Props/TieC04 `form_ref_entry` / `form_extra_keys`. -/
 def formParser (S : DwarfStructs) (form : Val) : R Con :=
   match form with
   | .str f =>
